@@ -754,15 +754,26 @@ template<typename T, typename C, typename A>
 req_sketch<T, C, A>::const_iterator::const_iterator(LevelsIterator begin, LevelsIterator end):
     levels_it_(begin),
     levels_end_(end),
-    compactor_it_(begin == end ? nullptr : (*levels_it_).begin())
-{}
+    compactor_it_(nullptr)
+{
+  // position on the first item, skipping empty levels
+  while (levels_it_ != levels_end_) {
+    compactor_it_ = (*levels_it_).begin();
+    if (compactor_it_ != (*levels_it_).end()) break;
+    ++levels_it_;
+  }
+}
 
 template<typename T, typename C, typename A>
 auto req_sketch<T, C, A>::const_iterator::operator++() -> const_iterator& {
   ++compactor_it_;
   if (compactor_it_ == (*levels_it_).end()) {
     ++levels_it_;
-    if (levels_it_ != levels_end_) compactor_it_ = (*levels_it_).begin();
+    while (levels_it_ != levels_end_) {
+      compactor_it_ = (*levels_it_).begin();
+      if (compactor_it_ != (*levels_it_).end()) break;
+      ++levels_it_;
+    }
   }
   return *this;
 }
